@@ -1,4 +1,73 @@
 import Model.Base.Proto
+import Model.Unit.Scale
+import Model.Unit.Parse
+import Model.Spec.Scale
 
-/-- stub: replaced when the property's driver is built -/
-def main : IO Unit := pure ()
+namespace Driver.C10
+open Proto
+
+def bits? (s : String) : Option F64.Bits := F64.ofHex? s
+def bitsList (s : String) : List F64.Bits := if s == "-" then [] else (s.splitOn ",").filterMap bits?
+def hexStr (s : String) : String := (Bytes.ofString s).toHex
+def unhexStr (s : String) : String := match Bytes.ofHex s with
+  | some b => (String.fromUTF8? (ByteArray.mk b.toArray)).getD "?"
+  | none => "?"
+
+def showScaler (s : Unit.Scale.Scaler) : String :=
+  s!"prec={Unit.Scale.showInt s.prec} factor={F64.toHex s.factor} prefix={hexStr s.prefix_}"
+
+def handle (l : Line) : IO Unit := do
+  if l.kind != "case" then return
+  let id := l.id
+  match l.getD "kind" with
+  | "f64" =>
+    let a := (bits? (l.getD "a")).getD 0
+    let b := (bits? (l.getD "b")).getD 0
+    let r := match l.getD "op" with
+      | "mul" => F64.toHex (F64.canonNaN (F64.mul a b))
+      | "div" => F64.toHex (F64.canonNaN (F64.div a b))
+      | "add" => F64.toHex (F64.canonNaN (F64.add a b))
+      | "sub" => F64.toHex (F64.canonNaN (F64.sub a b))
+      | "lt" => toString (F64.lt a b)
+      | "le" => toString (F64.le a b)
+      | "eq" => toString (F64.eq a b)
+      | "ofint" => F64.toHex (F64.ofInt ((l.getD "i").toInt?.getD 0))
+      | "parse" => match DecText.toF64? (unhexStr (l.getD "text")) with
+        | some x => F64.toHex x
+        | none => "!syntax"
+      | "fix" => hexStr (F64.fmtFixed a ((l.nat? "prec").getD 0))
+      | _ => "?"
+    IO.println s!"obs {id} r={r}"
+  | "scale" =>
+    let vals := bitsList (l.getD "vals")
+    let binary := l.getD "cls" == "1"
+    let cls := if binary then Unit.Scale.Class.binary else .decimal
+    let sc := Unit.Scale.commonScale vals cls
+    let fmts := vals.map fun v => hexStr (Unit.Scale.format sc v)
+    let singles := vals.map fun v => hexStr (Unit.Scale.scale v cls)
+    IO.println s!"obs {id} {showScaler sc} fmt={",".intercalate fmts} single={",".intercalate singles}"
+    -- spec: judge the implementation's own single-value texts, and the common scale rule
+    let implSingles := ((l.getD "isingle").splitOn ",").map unhexStr
+    let verdicts := (vals.zip implSingles).map fun (v, t) => Spec.Scale.judgeScale v binary t
+    let implNoop := ((l.getD "inoop").splitOn ",").map unhexStr
+    let nverdicts := (vals.zip implNoop).map fun (v, t) => Spec.Scale.judgeShortest v t
+    let minIdx := if vals.any F64.isNaN then "skip" else match Spec.Scale.argMinNonZero vals with
+      | some i => toString i
+      | none => "none"
+    IO.println s!"spec {id} judge={",".intercalate verdicts} noop={",".intercalate nverdicts} min={minIdx}"
+  | "classof" =>
+    let u := (l.bytes? "unit").getD []
+    let c := match Unit.Parse.classOf u with | .binary => "1" | .decimal => "0"
+    let toks := (Unit.Parse.tokens u).map fun t => s!"{t.tok.toHex}:{t.pos}:{if t.denom then 1 else 0}"
+    IO.println s!"obs {id} cls={c} toks={if toks.isEmpty then "-" else ",".intercalate toks}"
+    -- spec: binary exactly when B, MB or bytes appears as a numerator component
+    let comps := Unit.Parse.tokens u
+    let sb := comps.any fun t => !t.denom && (t.tok == Bytes.ofString "B" || t.tok == Bytes.ofString "MB" || t.tok == Bytes.ofString "bytes")
+    IO.println s!"spec {id} cls={if sb then 1 else 0}"
+  | _ => pure ()
+
+end Driver.C10
+
+def main : IO Unit := do
+  let stdin ← IO.getStdin
+  Proto.forEachLine stdin fun s => Driver.C10.handle (Proto.parseLine s)
